@@ -3,6 +3,8 @@ import ParryModel.C05.Theorems2
 import ParryModel.C05.Theorems3
 import ParryModel.C05.Theorems4
 import ParryModel.C05.Theorems5
+import ParryModel.C05.Theorems6
+import ParryModel.C05.Theorems7
 /-!
 # C05 property theorems (umbrella file)
 
@@ -14,5 +16,7 @@ import ParryModel.C05.Theorems5
 * `Theorems4.lean` — fu4: oriented-TriMesh pseudo-normal sign test (face / edge / vertex), HeightField cell tiling, cell-range
   completeness, triangle-id injectivity.
 * `Theorems5.lean` — fu4: tetrahedron vertex regions (returned + optimal) and `check_edge` (sound + optimal).
+* `Theorems6.lean` — fu4: `map_elements_in_local_aabb` loop structure (each cell of the range once), per-cell ids, y-cull soundness.
+* `Theorems7.lean` — fu4: `compute_pseudo_normals` is the angle-weighted sum; convex-inside half for the model's own vertex normal.
 `./mkaudit C05` collects the public `theorem`s of every `Theorems*.lean`.
 -/
